@@ -3,6 +3,10 @@ package props
 import (
 	"fmt"
 	"math/rand"
+	"runtime"
+	"sync"
+	"sync/atomic"
+	"time"
 
 	"github.com/zitadel/saml/pkg/provider"
 
@@ -90,6 +94,107 @@ func multiHostSequence(r *core.Run, wl string, idx int, rng *rand.Rand, mismatch
 			r.Count("multi_host_accepted", 1)
 		}
 	}
+}
+
+// multiHostConcurrent is multiHostSequence with the hosts' requests in flight at the same time: six clients, two
+// per host, on one provider, with short sleeps inside the storage calls (the points where a handler is suspended
+// between building its metadata and checking the request against it).
+func multiHostConcurrent(r *core.Run, wl string, idx int, rng *rand.Rand, mismatch bool) {
+	o := env.Opts{HostPath: "/saml"}
+	metaMode := rng.Intn(3)
+	switch metaMode {
+	case 1:
+		m := provider.NewEndpointWithURL("/metadata", "https://entity.idp.example/saml/metadata")
+		o.Metadata = &m
+	case 2:
+		o.UseFwd = true
+	}
+	if rng.Intn(2) == 0 {
+		o.MetaSigAlg = spsim.AlgRSASHA256
+	}
+	e, err := env.New(o)
+	if err != nil {
+		panic(err)
+	}
+	sp := stdSP(0)
+	sp.AuthnRequestsSigned = ""
+	mustRegister(e.W, sp, "appA")
+	u := randUser(rng, fmt.Sprintf("U_MK%dx", idx), false)
+	e.W.AddUser(u)
+	var dctr atomic.Int64
+	e.W.Delay = func(op string) {
+		switch n := dctr.Add(1); n % 4 {
+		case 0:
+			runtime.Gosched()
+		case 1:
+			time.Sleep(time.Duration(20+n%200) * time.Microsecond)
+		case 2:
+			time.Sleep(time.Duration(200+n%800) * time.Microsecond)
+		}
+	}
+	hosts := []string{"one.idp.example", "two.idp.example:8443", "three.example"}
+	var wg sync.WaitGroup
+	for g := 0; g < 6; g++ {
+		wg.Add(1)
+		seed := rng.Int63()
+		go func(g int) {
+			defer wg.Done()
+			lr := rand.New(rand.NewSource(seed))
+			h := hosts[g%len(hosts)]
+			for k := 0; k < 10; k++ {
+				dh := h
+				if mismatch && lr.Intn(2) == 0 {
+					for dh == h {
+						dh = hosts[lr.Intn(len(hosts))]
+					}
+				}
+				reqHost, hdr := h, map[string][]string(nil)
+				if metaMode == 2 {
+					reqHost, hdr = "lb.internal", map[string][]string{"Forwarded": {"host=\"" + h + "\""}}
+				}
+				kind := []string{"authn", "authn", "query", "metadata"}[lr.Intn(4)]
+				class := fmt.Sprintf("multi_host_concurrent|%s|meta=%d|mismatch=%v", kind, metaMode, dh != h)
+				desc := map[string]any{"client": g, "step": k, "host": h, "destination_host": dh, "kind": kind, "metadata_mode": metaMode}
+				var call *env.Call
+				accepted := false
+				switch kind {
+				case "authn":
+					a := validAuthn(lr, sp)
+					a.Destination = "https://" + dh + "/saml/SSO"
+					s := ssoSend{Binding: []string{"redirect", "post"}[lr.Intn(2)], XML: a.XML(lr), Host: reqHost}
+					s.hdr = hdr
+					call, _ = s.do(e)
+					accepted = call.Accepted()
+				case "query":
+					q := conformantQuery(lr, sp, u.Username)
+					q.Destination = "https://" + dh + "/saml/attribute"
+					call = e.Do(env.Req{Method: "POST", Path: env.PathAttr, Body: q.XML(lr), CT: "text/xml", Host: reqHost, Headers: hdr})
+					accepted = call.D.Success()
+				default: // a metadata request of this host in between (it rebuilds the descriptors for its issuer)
+					e.Do(env.Req{Path: env.PathMetadata, Host: reqHost, Headers: hdr})
+					continue
+				}
+				r.Eval(fmt.Sprintf("%s|%d|%d|%d", class, idx, g, k))
+				r.Count("multi_host_concurrent_requests", 1)
+				switch {
+				case call.Panic != "":
+					r.Violate(core.Violation{Clause: "panic", Class: class, Reason: call.Panic, Workload: wl, Index: idx, Case: desc, Observed: call.Describe()})
+					return
+				case dh == h && !accepted && !mismatch:
+					r.Violate(core.Violation{Clause: "conformant_request_rejected_while_other_hosts_are_served", Class: class, Reason: fmt.Sprintf("a conformant %s addressed to the location advertised for host %s was not accepted (status %d %s)", kind, h, call.D.Status, clipS(string(call.D.Body), 120)), Workload: wl, Index: idx, Case: desc, Observed: call.Describe()})
+					return
+				case dh != h && accepted:
+					r.Violate(core.Violation{Clause: "destination_of_other_issuer_accepted", Class: class, Reason: fmt.Sprintf("a %s sent to host %s with the Destination advertised for host %s was accepted while requests for other hosts were in flight", kind, h, dh), Workload: wl, Index: idx, Case: desc, Observed: call.Describe()})
+					return
+				case dh != h:
+					r.Count("multi_host_concurrent_mismatches_refused", 1)
+				case accepted:
+					r.Count("multi_host_concurrent_accepted", 1)
+				}
+			}
+		}(g)
+	}
+	wg.Wait()
 }
 
 var _ = spsim.BindPost
